@@ -1,5 +1,6 @@
 //! Verification harness for avra-rs: executes the real library on inputs chosen by /verif/check
 //! and prints canonical observations.  Never linked into the repository itself.
+mod build;
 mod enc;
 mod exprs;
 mod sexp;
@@ -19,7 +20,10 @@ fn main() {
         "hex" => hexw::main(&args[2..]),
         "devices" => tables::devices(),
         "ops" => tables::ops(),
+        "dirs" => tables::dirs(),
         "enc" => enc::main(),
+        "build" => build::main(),
+        "build-worker" => build::worker(),
         "expr" => exprs::main(),
         other => {
             eprintln!("unknown command {}", other);
